@@ -17,13 +17,12 @@ EITHER zones:
   E6  sort_individuals: only "parents before children" + consistent remapping is documented, not the order.
 """
 import itertools
-import math
 
 import tskit
 
 from lib import gen
 from lib.harness import case_rng
-from lib.model import NULL, RowModel, allele_at, forest, isclose, mutation_parents
+from lib.model import NULL, allele_at, forest, isclose, mutation_parents
 from lib.props.c14 import (_first_diff, _msorted, bad_offsets, compare_individuals, diff_models, edge_key,
                            mask_individuals, msprime_model, read_back, ref_dedup_sites, ref_sort, ref_subset,
                            stale_index)
